@@ -686,12 +686,13 @@ impl<H: DnsHandle> DnssecDnsHandle<H> {
                 if ds_message
                     .answers
                     .iter()
-                    .filter(|r| r.record_type() == RecordType::DS)
+                    .filter(|r| r.record_type() == RecordType::DS && r.name == zone)
                     .any(|r| r.proof.is_secure()) =>
             {
                 // This is a secure DS RRset.
                 let all_records = mem::take(&mut ds_message.answers)
                     .into_iter()
+                    .filter(|r| r.name == zone)
                     .filter_map(|r| {
                         r.map(|data| match data {
                             RData::DNSSEC(DNSSECRData::DS(ds)) => Some(ds),
